@@ -63,17 +63,22 @@ def lengthFits (start d : Nat) : Bool := decide (start + d ≤ 92233720368547758
     the data that starts with `endstream` ends the extent).  The range handed to
     `trimTrailingEOL` includes the matched EOL byte (f33cd07, D-C20-1), so that exactly one EOL
     marker — LF, CR or CR LF — is taken off and an EOL which ends the data itself is kept. -/
-def recoverExtent (file : Bytes) (start : Nat) : Except Err StreamExt :=
+def recoverExtent (file : Bytes) (start : Nat) (limit : Option Nat := none) : Except Err StreamExt :=
   match findEolEndstream (file.drop start) with
   | none => .error .malformed     -- io.EOF from Find, turned into "unexpected EOF while reading Stream"
   | some i =>
+    -- 1430e5c (D121): `scanner.findLimit` — the sequential scan sets it to the start of the next
+    -- located object; a match at or behind it is `io.EOF` (so is the end of a window at or behind
+    -- it: everything in front of the limit has been searched then)
+    if (match limit with | some l => decide (start + i ≥ l) | none => false) then .error .malformed else
     let l := trimTrailingEOL ((file.drop start).take (i + 1))
     .ok { start := start, len := l, after := start + i + 10 }
 
 /-- `ReadStreamData` with the scanner at absolute position `pos` (at the keyword `stream`);
     `declared` is the usable value of `/Length` (`getInt` succeeded and gave `n ≥ 0`).
     Errors are those after the deferred handler (EOF has become `malformed`). -/
-def readStreamData (file : Bytes) (pos : Nat) (declared : Option Nat) : Except Err StreamExt :=
+def readStreamData (file : Bytes) (pos : Nat) (declared : Option Nat) (limit : Option Nat := none) :
+    Except Err StreamExt :=
   let inp := file.drop pos
   if !startsWith inp kw_stream then .error .malformed else
   let eolLen : Option Nat := match inp.drop 6 with
@@ -86,7 +91,7 @@ def readStreamData (file : Bytes) (pos : Nat) (declared : Option Nat) : Except E
   | some k =>
     let start := pos + 6 + k
     match declared with
-    | none => recoverExtent file start
+    | none => recoverExtent file start limit
     | some d =>
       if lengthFits start d && endstreamAt file (start + d) then
         -- Discard(l); SkipWhiteSpace; SkipString("endstream")
@@ -95,7 +100,7 @@ def readStreamData (file : Bytes) (pos : Nat) (declared : Option Nat) : Except E
         | (r, false) =>
           if startsWith r kwEndstream then .ok { start := start, len := d, after := file.length - r.length + 9 }
           else .error .malformed
-      else recoverExtent file start
+      else recoverExtent file start limit
 
 /-- what `ReadObject`/`ReadIndirectObject` return: a direct object or a stream -/
 inductive Val where
@@ -133,8 +138,8 @@ def declaredOf (getInt : Obj → Except Err Int) (d : List (Bytes × Obj)) : Exc
 /-- `ReadObject` on a scanner with a `fileReader`, at absolute position `pos`.  `getInt` is the
     scanner's `getInt`; `scalarOnly` refuses composites.
     Returns the value and the absolute position after it. -/
-def readObjectTop (file : Bytes) (pos : Nat) (getInt : Obj → Except Err Int) (scalarOnly : Bool) :
-    Except Err (Val × Nat) :=
+def readObjectTop (file : Bytes) (pos : Nat) (getInt : Obj → Except Err Int) (scalarOnly : Bool)
+    (limit : Option Nat := none) : Except Err (Val × Nat) :=
   let inp := file.drop pos
   match inp with
   | 60 :: 60 :: _ =>
@@ -148,7 +153,7 @@ def readObjectTop (file : Bytes) (pos : Nat) (getInt : Obj → Except Err Int) (
         match declaredOf getInt d with
         | .error e => .error e
         | .ok declared =>
-          match readStreamData file p declared with
+          match readStreamData file p declared limit with
           | .error e => .error e
           | .ok ext => .ok (.stream (dictErase kwLength d) ext.start ext.len, ext.after)
       else .ok (.obj (.dict d), p)
@@ -183,8 +188,8 @@ structure Indirect where
   deriving Repr, Inhabited
 
 /-- `ReadIndirectObject` on a scanner positioned at absolute `pos` -/
-def readIndirect (file : Bytes) (pos : Nat) (getInt : Obj → Except Err Int) (scalarOnly : Bool) :
-    Except Err Indirect :=
+def readIndirect (file : Bytes) (pos : Nat) (getInt : Obj → Except Err Int) (scalarOnly : Bool)
+    (limit : Option Nat := none) : Except Err Indirect :=
   match readInt (file.drop pos) with
   | .error e => .error e
   | .ok (number, r) =>
@@ -201,7 +206,7 @@ def readIndirect (file : Bytes) (pos : Nat) (getInt : Obj → Except Err Int) (s
   if number < 0 || number ≥ Gen.his_xref_maxXRefSize || generation < 0 || generation > Gen.his_xref_maxGeneration then
     .error .malformed
   else
-  match readObjectTop file (file.length - r.length) getInt scalarOnly with
+  match readObjectTop file (file.length - r.length) getInt scalarOnly limit with
   | .error e => .error e
   | .ok (v, p) =>
   match skipWS (file.drop p) with
